@@ -16,8 +16,9 @@
 (* array head.  Neither must matter.                                         *)
 (*                                                                           *)
 (* The module is parametric in the word size W.  TLC checks it with          *)
-(* W = 2^3 (thorough: 2^4) on the full grid (every a, size, b, fee) and with *)
-(* W = 2^8 on a grid that contains every overflow edge; the conformance driver replays    *)
+(* W = 2^3 on the full grid as states (thorough: also W = 2^4 as one         *)
+(* quantified theorem) and with W = 2^8 on a grid that contains every        *)
+(* overflow edge; the conformance driver replays                             *)
 (* the rows at 64 bits through the exact map  x |-> x * 2^64/W  on a, b and  *)
 (* the fee (invariant Homogeneous) and uses the class table (Class ->        *)
 (* verdict) for 64-bit numbers that are not multiples of 2^64/W, classified  *)
@@ -32,7 +33,8 @@ CONSTANTS
     Origs,      \* size slice: abstract lengths of the original encoding
     Pads,       \* size slice: |orig| - |canonical re-encoding|
     SzAs, SzBs, \* size slice: fee parameters (small: no overflow there)
-    WrapDefect  \* TRUE re-enables modular arithmetic in the model (TLC must refute it)
+    WrapDefect, \* TRUE re-enables modular arithmetic in the model (TLC must refute it)
+    FullW       \* word size of the full-grid theorem and of arithfull.ndjson (0 = none)
 
 Full == 0..(W - 1)            \* for configurations:  As <- Full
 Word(w) == 0..(w - 1)
@@ -92,6 +94,14 @@ FeeSize(era, env, orig) == orig - Sub(era, env)
 \* it is silent on a Dijkstra transaction that arrives with four elements
 \* (the repository deliberately subtracts the byte there): both are accepted
 Silent(era, env) == era = "dijkstra" /\ env = 4
+
+\* the property is one-directional ("accepts only if fee >= a*size + b"): the
+\* implementation sizes an Alonzo..Conway transaction whose four-element envelope
+\* has an INDEFINITE head one byte too large (it cannot read the head and keeps
+\* |orig|), which only raises the minimum.  For these cases an over-estimate of
+\* the size is an observation, not a disagreement; an under-estimate, or an
+\* acceptance below the stated minimum, still is one.
+OverSizeTolerated(era, env, hd) == era \in Mid /\ env = 4 /\ hd = "indef"
 
 SizeVerdict(orig, max) == IF orig <= max THEN "accept" ELSE "tooBig"
 
@@ -153,47 +163,64 @@ AllCasesVisited == TLCGet("distinct") = Cardinality(ArithSlice) + Cardinality(Si
 IsArith == c.kind = "arith"
 IsSize  == c.kind = "size"
 
+\* --- the arithmetic meta-properties as predicates of one point (w, a, s, b, f) ---
+
 \* the decision is a function of the class, and the class table is the one above
-ClassDecides == IsArith =>
-    /\ Class(W, c.a, c.s, c.b, c.fee) \in Classes
-    /\ FeeVerdict(W, c.a, c.s, c.b, c.fee) = ClassVerdict(Class(W, c.a, c.s, c.b, c.fee))
+PClassDecides(w, a, s, b, f) ==
+    /\ Class(w, a, s, b, f) \in Classes
+    /\ FeeVerdict(w, a, s, b, f) = ClassVerdict(Class(w, a, s, b, f))
 
 \* nothing is ever accepted below the true (unbounded) a*size + b, and an
 \* overflow is an error for every fee; WrapDefect = TRUE is refuted here
-NeverWrapped == IsArith =>
-    /\ (FeeVerdict(W, c.a, c.s, c.b, c.fee) = "accept" => c.fee >= c.a * c.s + c.b)
-    /\ (c.a * c.s + c.b >= W <=> FeeVerdict(W, c.a, c.s, c.b, c.fee) = "overflow")
+PNeverWrapped(w, a, s, b, f) ==
+    /\ (FeeVerdict(w, a, s, b, f) = "accept" => f >= a * s + b)
+    /\ (a * s + b >= w <=> FeeVerdict(w, a, s, b, f) = "overflow")
 
 \* without overflow the rule is the exact threshold
-Threshold == IsArith /\ ~Ov(W, c.a, c.s, c.b) =>
-    /\ (ExactVerdict(W, c.a, c.s, c.b, c.fee) = "accept" <=> c.fee >= MinFee(c.a, c.s, c.b))
-    /\ ExactVerdict(W, c.a, c.s, c.b, MinFee(c.a, c.s, c.b)) = "accept"
-    /\ (MinFee(c.a, c.s, c.b) > 0 => ExactVerdict(W, c.a, c.s, c.b, MinFee(c.a, c.s, c.b) - 1) = "tooSmall")
+PThreshold(w, a, s, b, f) == ~Ov(w, a, s, b) =>
+    /\ (ExactVerdict(w, a, s, b, f) = "accept" <=> f >= MinFee(a, s, b))
+    /\ ExactVerdict(w, a, s, b, MinFee(a, s, b)) = "accept"
+    /\ (MinFee(a, s, b) > 0 => ExactVerdict(w, a, s, b, MinFee(a, s, b) - 1) = "tooSmall")
 
 \* the two overflow causes are exclusive and together say "the true sum does not fit"
-OverflowSplit == IsArith =>
-    /\ ~(MulOv(W, c.a, c.s) /\ AddOv(W, c.a, c.s, c.b))
-    /\ (Ov(W, c.a, c.s, c.b) <=> c.a * c.s + c.b >= W)
+POverflowSplit(w, a, s, b, f) ==
+    /\ ~(MulOv(w, a, s) /\ AddOv(w, a, s, b))
+    /\ (Ov(w, a, s, b) <=> a * s + b >= w)
 
 \* more fee never hurts; larger parameters never help; overflow is upward closed
-Monotone == IsArith =>
-    /\ (ExactVerdict(W, c.a, c.s, c.b, c.fee) = "accept" => ExactVerdict(W, c.a, c.s, c.b, c.fee + 1) = "accept")
-    /\ (c.a >= 1 /\ ExactVerdict(W, c.a, c.s, c.b, c.fee) = "accept"
-            => ExactVerdict(W, c.a - 1, c.s, c.b, c.fee) = "accept")
-    /\ (c.b >= 1 /\ ExactVerdict(W, c.a, c.s, c.b, c.fee) = "accept"
-            => ExactVerdict(W, c.a, c.s, c.b - 1, c.fee) = "accept")
-    /\ (Ov(W, c.a, c.s, c.b) => Ov(W, c.a + 1, c.s, c.b) /\ Ov(W, c.a, c.s + 1, c.b) /\ Ov(W, c.a, c.s, c.b + 1))
+PMonotone(w, a, s, b, f) ==
+    /\ (ExactVerdict(w, a, s, b, f) = "accept" => ExactVerdict(w, a, s, b, f + 1) = "accept")
+    /\ (a >= 1 /\ ExactVerdict(w, a, s, b, f) = "accept" => ExactVerdict(w, a - 1, s, b, f) = "accept")
+    /\ (b >= 1 /\ ExactVerdict(w, a, s, b, f) = "accept" => ExactVerdict(w, a, s, b - 1, f) = "accept")
+    /\ (Ov(w, a, s, b) => Ov(w, a + 1, s, b) /\ Ov(w, a, s + 1, b) /\ Ov(w, a, s, b + 1))
 
 \* the wrapped design agrees with the exact one exactly when nothing overflows
-WrapCharacterised == IsArith =>
-    (WrappedVerdict(W, c.a, c.s, c.b, c.fee) = ExactVerdict(W, c.a, c.s, c.b, c.fee) <=> ~Ov(W, c.a, c.s, c.b))
+PWrapCharacterised(w, a, s, b, f) ==
+    (WrappedVerdict(w, a, s, b, f) = ExactVerdict(w, a, s, b, f) <=> ~Ov(w, a, s, b))
 
 \* scaling a, b and the fee together with the word keeps class and verdict:
 \* the justification for replaying the grid at 64 bits with the factor 2^64/W
-Homogeneous == IsArith => \A m \in {2, 3, 16} :
-    /\ Class(W * m, c.a * m, c.s, c.b * m, c.fee * m) = Class(W, c.a, c.s, c.b, c.fee)
-    /\ ExactVerdict(W * m, c.a * m, c.s, c.b * m, c.fee * m) = ExactVerdict(W, c.a, c.s, c.b, c.fee)
-    /\ (~Ov(W, c.a, c.s, c.b) => MinFee(c.a * m, c.s, c.b * m) = m * MinFee(c.a, c.s, c.b))
+PHomogeneous(w, a, s, b, f) == \A m \in {2, 3, 16} :
+    /\ Class(w * m, a * m, s, b * m, f * m) = Class(w, a, s, b, f)
+    /\ ExactVerdict(w * m, a * m, s, b * m, f * m) = ExactVerdict(w, a, s, b, f)
+    /\ (~Ov(w, a, s, b) => MinFee(a * m, s, b * m) = m * MinFee(a, s, b))
+
+\* --- as invariants of the visited cases ---
+ClassDecides      == IsArith => PClassDecides(W, c.a, c.s, c.b, c.fee)
+NeverWrapped      == IsArith => PNeverWrapped(W, c.a, c.s, c.b, c.fee)
+Threshold         == IsArith => PThreshold(W, c.a, c.s, c.b, c.fee)
+OverflowSplit     == IsArith => POverflowSplit(W, c.a, c.s, c.b, c.fee)
+Monotone          == IsArith => PMonotone(W, c.a, c.s, c.b, c.fee)
+WrapCharacterised == IsArith => PWrapCharacterised(W, c.a, c.s, c.b, c.fee)
+Homogeneous       == IsArith => PHomogeneous(W, c.a, c.s, c.b, c.fee)
+
+\* --- and as one theorem over the FULL grid of a small word FullW (every a, size,
+\* b, fee in 0..FullW-1), evaluated by TLC as an assumption (FullW = 0: skipped);
+\* these points are not states, their number is FullW^4 ---
+FullGridTheorem(w) == \A a \in Word(w), s \in Word(w), b \in Word(w), f \in Word(w) :
+    /\ PClassDecides(w, a, s, b, f) /\ PNeverWrapped(w, a, s, b, f) /\ PThreshold(w, a, s, b, f)
+    /\ POverflowSplit(w, a, s, b, f) /\ PMonotone(w, a, s, b, f) /\ PWrapCharacterised(w, a, s, b, f)
+    /\ PHomogeneous(w, a, s, b, f)
 
 \* the size slice is evaluated in a word wide enough that it never overflows
 \* (so its verdicts do not depend on W)
@@ -222,10 +249,11 @@ OriginalLength == IsSize /\ c.pad > 0 =>
     /\ (c.a >= 1 => SzFeeVerdict(c, c.orig, MinFee(c.a, FeeSize(c.era, c.env, c.orig - c.pad), c.b)) = "tooSmall")
 
 ---------------------------------------------------------------------------
-ArithRow(x) == [w |-> W, a |-> x.a, s |-> x.s, b |-> x.b, fee |-> x.fee,
-                cls |-> Class(W, x.a, x.s, x.b, x.fee), edge |-> Edge(W, x.a, x.s, x.b),
-                verdict |-> FeeVerdict(W, x.a, x.s, x.b, x.fee),
-                wrapDiffers |-> (WrappedVerdict(W, x.a, x.s, x.b, x.fee) # ExactVerdict(W, x.a, x.s, x.b, x.fee))]
+ArithRowW(w, a, s, b, f) ==
+    [w |-> w, a |-> a, s |-> s, b |-> b, fee |-> f,
+     cls |-> Class(w, a, s, b, f), edge |-> Edge(w, a, s, b), verdict |-> FeeVerdict(w, a, s, b, f),
+     wrapDiffers |-> (WrappedVerdict(w, a, s, b, f) # ExactVerdict(w, a, s, b, f))]
+ArithRow(x) == ArithRowW(W, x.a, x.s, x.b, x.fee)
 
 SizeRow(x) == [era |-> x.era, env |-> x.env, hd |-> x.hd, orig |-> x.orig, pad |-> x.pad,
                a |-> x.a, b |-> x.b, fee |-> x.fee, max |-> x.max,
@@ -233,7 +261,8 @@ SizeRow(x) == [era |-> x.era, env |-> x.env, hd |-> x.hd, orig |-> x.orig, pad |
                minfee |-> MinFee(x.a, FeeSize(x.era, x.env, x.orig), x.b),
                feeVerdict |-> SzFeeVerdict(x, x.orig, x.fee),
                sizeVerdict |-> SizeVerdict(x.orig, x.max),
-               silent |-> Silent(x.era, x.env)]
+               silent |-> Silent(x.era, x.env),
+               tolerateOver |-> OverSizeTolerated(x.era, x.env, x.hd)]
 
 ClassRow(k) == [cls |-> k, verdict |-> ClassVerdict(k),
                 witnesses |-> Cardinality({x \in ArithSlice : Class(W, x.a, x.s, x.b, x.fee) = k})]
@@ -242,4 +271,8 @@ Rows(S, F(_)) == LET q == SetToSeq(S) IN [i \in 1..Len(q) |-> F(q[i])]
 ASSUME ndJsonSerialize("arith.ndjson", Rows(ArithSlice, ArithRow))
 ASSUME ndJsonSerialize("size.ndjson", Rows(SizeSlice, SizeRow))
 ASSUME ndJsonSerialize("classes.ndjson", Rows(Classes, ClassRow))
+ASSUME FullW = 0 \/ FullGridTheorem(FullW)
+ASSUME FullW = 0 \/ ndJsonSerialize("arithfull.ndjson",
+           Rows(Word(FullW) \X Word(FullW) \X Word(FullW) \X Word(FullW),
+                LAMBDA p : ArithRowW(FullW, p[1], p[2], p[3], p[4])))
 =============================================================================
